@@ -37,11 +37,13 @@ CONSTANTS
   StopOuts,            \* subset of {"ok","err","panic"}
   NestKinds,           \* subset of {"ask","askT","tell"}: ops a hook may perform
   NestHooks,           \* subset of {"Start","Handler","Stop"}: hooks that may do them
-  HandleOps,           \* subset of {"clone","drop","down","up","alive","ident"}
+  HandleOps,           \* subset of {"clone","drop","down","up","alive","ident","erase"}
+  EraseKinds,          \* subset of {"tellh","askh","ctl"}: type-erased wrappers a handle may be converted to
   DeadlockDetection,   \* BOOLEAN: feature deadlock-detection
   EdgeClearedOnReply,  \* BOOLEAN: wait-for edge removed when the reply is sent (F1 fixed)
   MetricsOn,           \* BOOLEAN: feature metrics (extra ActorRef clone during a handler)
   MaxRun,              \* bound on on_run invocations per actor (keeps the model finite)
+  AvoidCycles,         \* BOOLEAN: hooks never issue an ask that would close a cycle (cycle-free programs)
   MaxProbes            \* bound on pure observations (is_alive / identity), which do not change state
 
 Actors  == {ActorSeq[i] : i \in DOMAIN ActorSeq}
@@ -68,7 +70,13 @@ NoActor == [sp |-> FALSE, pc |-> "None", cap |-> 0, permits |-> 0, mbox |-> <<>>
 NoOpRec == [own |-> "", kind |-> "", h |-> 0, a |-> "", m |-> 0, dl |-> -1, ph |-> "none",
             res |-> "", val |-> 0, rep |-> "none", rv |-> 0]
 
-NoHandle == [a |-> "", k |-> "none"]
+NoHandle == [a |-> "", k |-> "none", vk |-> "ref"]
+
+\* operations a (strong) handle of wrapper kind vk offers (handler.rs / actor_control.rs)
+KindsOf(vk) == IF vk = "ref" THEN {"tell","ask","tellT","askT","stop","kill"}
+               ELSE IF vk = "tellh" THEN {"tell","tellT","stop","kill"}
+               ELSE IF vk = "askh" THEN {"ask","askT","stop","kill"}
+               ELSE {"stop","kill"}
 
 InitState ==
   [now |-> 0, nextH |-> 1, nextM |-> 1, nextOp |-> 1, nextId |-> 1, q |-> FALSE,
@@ -167,7 +175,7 @@ Done(s, o, res, val) ==
       s1 == SetO(s, o, [ph |-> "done", res |-> res, val |-> val])
       s2 == IF op.own \in Clients THEN [s1 EXCEPT !.C[op.own] = 0]
             ELSE SetA(s1, op.own, [hop |-> 0])
-      s3 == IF op.kind \in AskKinds /\ DeadlockDetection THEN ClearEdge(s2, op.own) ELSE s2
+      s3 == IF op.kind \in AskKinds THEN ClearEdge(s2, op.own) ELSE s2
   IN R(s3, << OpEndEv(s, o, res, val) >>)
 
 DeadLetterEv(s, o, reason) ==
@@ -274,7 +282,7 @@ WouldDeadlock(s, own, callee) ==
 \* first poll of a freshly created op (shared by clients and hooks); never called on a deadlock
 FirstPoll(s, o) ==
   LET op == s.O[o]
-      s0 == IF op.kind \in AskKinds /\ DeadlockDetection /\ op.own \in Actors
+      s0 == IF op.kind \in AskKinds /\ op.own \in Actors
               THEN [s EXCEPT !.wf[op.own] = op.a] ELSE s
       r  == IF op.kind = "kill" THEN KillNow(s0, o) ELSE PollOp(s0, o)
   IN  R(r.s, << OpStartEv(s, o) >> \o r.evs)
@@ -297,10 +305,10 @@ Finish(s, a, res, cyc) ==
       s2 == IF A.hop # 0 THEN SetO(Withdraw(s1, A.hop), A.hop, [ph |-> "dropped"]) ELSE s1
       s3 == SetA(s2, a, [pc |-> "Done", closed |-> TRUE, mbox |-> <<>>, cur |-> 0, own |-> FALSE,
                          marker |-> FALSE, hop |-> 0, term |-> FALSE, res |-> res])
-      s4a == IF DeadlockDetection THEN ClearEdge(s3, a) ELSE s3
+      s4a == ClearEdge(s3, a)
       \* destroying an unanswered request also releases its asker's edge (part of the F1 fix)
       askers == {s.O[o].own : o \in {x \in dropped : s.O[x].kind \in AskKinds /\ s.O[x].rep = "open"}}
-      s4 == IF DeadlockDetection /\ EdgeClearedOnReply
+      s4 == IF EdgeClearedOnReply
               THEN [s4a EXCEPT !.wf = [x \in Actors |-> IF x \in askers THEN "" ELSE s4a.wf[x]]]
               ELSE s4a
   IN  R(s4, << [e |-> "Joined", a |-> a, res |-> res,
@@ -354,7 +362,7 @@ ExitHook(s, a, dir) ==
             LET s1 == IF IsAsk(s, o)
                         THEN (IF s.O[o].rep = "open"
                                 THEN LET t == SetO(s, o, [rep |-> "val", rv |-> v])
-                                     IN  IF DeadlockDetection /\ EdgeClearedOnReply
+                                     IN  IF EdgeClearedOnReply
                                            THEN ClearEdge(t, s.O[o].own) ELSE t
                                 ELSE s)
                         ELSE s
@@ -422,7 +430,7 @@ CmdEnabled(s, cmd) ==
                              /\ \A i \in DOMAIN ActorSeq : i < ActorIdx(cmd.a) => s.A[ActorSeq[i]].sp
        [] cmd.c = "start" -> /\ s.C[cmd.cl] = 0 /\ s.H[cmd.h].k = "s" /\ s.nextOp <= MaxOps
                              /\ ClientIdx(cmd.cl) <= s.used + 1     \* clients are interchangeable
-                             /\ cmd.kind \in OpKinds
+                             /\ cmd.kind \in OpKinds /\ cmd.kind \in KindsOf(s.H[cmd.h].vk)
                              /\ (cmd.kind \in MsgKinds => s.nextM <= MaxMsg)
                              /\ (cmd.kind \in TimedKinds => cmd.d \in Timeouts /\ s.now + cmd.d <= MaxTime)
                              /\ (cmd.kind \notin TimedKinds => cmd.d = 0)
@@ -438,8 +446,11 @@ CmdEnabled(s, cmd) ==
             LET A == s.A[cmd.a] IN
             /\ A.sp /\ A.pc \in NestHooks /\ A.hop = 0 /\ cmd.kind \in NestKinds
             /\ s.H[cmd.h].k = "s" /\ s.nextOp <= MaxOps /\ s.nextM <= MaxMsg
+            /\ cmd.kind \in KindsOf(s.H[cmd.h].vk)
             /\ (cmd.kind \in TimedKinds => cmd.d \in Timeouts /\ s.now + cmd.d <= MaxTime)
             /\ (cmd.kind \notin TimedKinds => cmd.d = 0)
+            /\ (AvoidCycles /\ cmd.kind \in AskKinds =>
+                   LET callee == s.H[cmd.h].a IN cmd.a # callee /\ ~HasPath(s.wf, callee, cmd.a))
        [] cmd.c = "advance" -> /\ cmd.d >= 1 /\ s.now + cmd.d <= MaxTime
                                \* a client collects every result that is ready before time moves on
                                /\ \A c \in Clients : s.C[c] = 0 \/ ~Pollable(s, s.C[c])
@@ -453,6 +464,10 @@ CmdEnabled(s, cmd) ==
        [] cmd.c = "up"    -> "up" \in HandleOps /\ s.H[cmd.h].k = "w" /\ s.nextH <= MaxH
        [] cmd.c = "alive" -> "alive" \in HandleOps /\ s.H[cmd.h].k \in {"s","w"} /\ s.pr < MaxProbes
        [] cmd.c = "ident" -> "ident" \in HandleOps /\ s.H[cmd.h].k \in {"s","w"} /\ s.pr < MaxProbes
+       [] cmd.c = "erase" -> /\ "erase" \in HandleOps /\ s.H[cmd.h].k \in {"s","w"} /\ s.H[cmd.h].vk = "ref"
+                             /\ cmd.vk \in EraseKinds
+                             /\ (cmd.by = "ref" => s.nextH <= MaxH)
+                             /\ ~\E o \in OpIds : s.O[o].h = cmd.h /\ s.O[o].ph \in {"new","wait","granted","reply"}
        [] cmd.c = "quiesce" ->
             /\ \A c \in Clients : s.C[c] = 0 \/ ~Pollable(s, s.C[c])
             /\ \A a \in Actors : s.A[a].sp =>
@@ -466,7 +481,7 @@ DoRaw(s, cmd) ==
          LET a == cmd.a  h == s.nextH
              A == [NoActor EXCEPT !.sp = TRUE, !.pc = "Init", !.cap = cmd.cap, !.permits = cmd.cap,
                                   !.own = TRUE, !.id = s.nextId]
-         IN  R([s EXCEPT !.A[a] = A, !.H[h] = [a |-> a, k |-> "s"], !.nextH = @ + 1, !.nextId = @ + 1],
+         IN  R([s EXCEPT !.A[a] = A, !.H[h] = [a |-> a, k |-> "s", vk |-> "ref"], !.nextH = @ + 1, !.nextId = @ + 1],
                << [e |-> "Spawn", a |-> a, cap |-> cmd.cap, id |-> s.nextId, h |-> h] >>)
     [] cmd.c = "start" ->
          LET s1 == NewOp(s, cmd.cl, cmd.kind, cmd.h, cmd.d)
@@ -490,14 +505,14 @@ DoRaw(s, cmd) ==
          R([s EXCEPT !.H[s.nextH] = s.H[cmd.h], !.nextH = @ + 1],
            << [e |-> "Clone", h |-> cmd.h, h2 |-> s.nextH, a |-> s.H[cmd.h].a, k |-> s.H[cmd.h].k] >>)
     [] cmd.c = "drop"  ->
-         R([s EXCEPT !.H[cmd.h] = [a |-> s.H[cmd.h].a, k |-> "dead"]],
+         R([s EXCEPT !.H[cmd.h] = [a |-> s.H[cmd.h].a, k |-> "dead", vk |-> "ref"]],
            << [e |-> "DropH", h |-> cmd.h, a |-> s.H[cmd.h].a, k |-> s.H[cmd.h].k] >>)
     [] cmd.c = "down"  ->
-         R([s EXCEPT !.H[s.nextH] = [a |-> s.H[cmd.h].a, k |-> "w"], !.nextH = @ + 1],
+         R([s EXCEPT !.H[s.nextH] = [a |-> s.H[cmd.h].a, k |-> "w", vk |-> s.H[cmd.h].vk], !.nextH = @ + 1],
            << [e |-> "Down", h |-> cmd.h, h2 |-> s.nextH, a |-> s.H[cmd.h].a] >>)
     [] cmd.c = "up"    ->
          LET a == s.H[cmd.h].a  ok == Strong(s, a) > 0 IN
-         IF ok THEN R([s EXCEPT !.H[s.nextH] = [a |-> a, k |-> "s"], !.nextH = @ + 1],
+         IF ok THEN R([s EXCEPT !.H[s.nextH] = [a |-> a, k |-> "s", vk |-> s.H[cmd.h].vk], !.nextH = @ + 1],
                       << [e |-> "Up", h |-> cmd.h, h2 |-> s.nextH, a |-> a, ok |-> TRUE] >>)
                ELSE R(s, << [e |-> "Up", h |-> cmd.h, h2 |-> 0, a |-> a, ok |-> FALSE] >>)
     [] cmd.c = "alive" ->
@@ -507,6 +522,14 @@ DoRaw(s, cmd) ==
     [] cmd.c = "ident" ->
          R([s EXCEPT !.pr = @ + 1],
            << [e |-> "Ident", h |-> cmd.h, a |-> s.H[cmd.h].a, id |-> s.A[s.H[cmd.h].a].id] >>)
+    [] cmd.c = "erase" ->
+         \* From<ActorRef>/From<ActorWeak> (by value: same handle, new wrapper) or From<&...> (a boxed clone)
+         LET hh == s.H[cmd.h] IN
+         IF cmd.by = "val"
+           THEN R([s EXCEPT !.H[cmd.h] = [hh EXCEPT !.vk = cmd.vk]],
+                  << [e |-> "Erase", h |-> cmd.h, h2 |-> 0, a |-> hh.a, k |-> hh.k, vk |-> cmd.vk] >>)
+           ELSE R([s EXCEPT !.H[s.nextH] = [hh EXCEPT !.vk = cmd.vk], !.nextH = @ + 1],
+                  << [e |-> "Erase", h |-> cmd.h, h2 |-> s.nextH, a |-> hh.a, k |-> hh.k, vk |-> cmd.vk] >>)
     [] cmd.c = "quiesce" ->
          R([s EXCEPT !.q = TRUE],
            << [e |-> "Quiescent",
@@ -544,7 +567,8 @@ BurstCmds   == {[c |-> "burst", a |-> a, dir |-> d] :
 NestCmds    == {[c |-> "nest", a |-> a, kind |-> k, h |-> h, d |-> d] :
                    a \in Actors, k \in NestKinds, h \in HIds, d \in Timeouts \cup {0}}
 AdvanceCmds == {[c |-> "advance", d |-> d] : d \in 1..MaxTime}
-HandleCmds  == {[c |-> k, h |-> h] : k \in HandleOps, h \in HIds}
+HandleCmds  == {[c |-> k, h |-> h] : k \in HandleOps \ {"erase"}, h \in HIds}
+EraseCmds   == {[c |-> "erase", h |-> h, vk |-> vk, by |-> by] : h \in HIds, vk \in EraseKinds, by \in {"val","ref"}}
 QuiesceCmd  == [c |-> "quiesce"]
 
 =============================================================================
